@@ -183,6 +183,106 @@ def all_names_of(fields, by_name):
     return out
 
 
+# ---------------------------------------------------------------- directed receivers (option interactions the random draw rarely hits)
+def F(ident, ty, **kw):
+    f = {"ident": ident, "rename": None, "default": None, "with": None, "post": None, "skip": False, "multiple": False, "flatten": False, "ty": ty}
+    f.update(kw)
+    return f
+
+
+def L(name):
+    return {"t": "leaf", "name": name}
+
+
+def O(t):
+    return {"t": "opt", "e": t}
+
+
+def Rv(name):
+    return {"t": "recv", "name": name}
+
+
+def directed(recvs, by_name, k):
+    def add_struct(fields, rule=None, cdefault=None, auk=False, post=None, from_word=False, from_none=False):
+        nonlocal k
+        name = "R%d" % k
+        k += 1
+        c = {"rename_all": rule, "default": None, "post": post, "auk": auk, "from_word": None, "from_none": None}
+        for f in fields:
+            f["name"] = f["rename"] or apply_to_field(rule, f["ident"])
+        x = {"name": name, "kind": "struct", "trait": "FromMeta", "cinfo": c, "fields": fields}
+        x["has_default"] = all(has_default(f["ty"], by_name) or f["multiple"] for f in fields)
+        if cdefault == "trait":
+            c["default"] = ["trait"]
+        elif cdefault == "explicit":
+            c["default"] = ["explicit", "d_" + name]
+        if from_word:
+            c["from_word"] = "fw_" + name
+        if from_none:
+            c["from_none"] = "fn_" + name
+        x["all_names"] = all_names_of(fields, by_name)
+        x["depth"] = 1 + max([ty_depth(f["ty"], by_name) for f in fields] + [0])
+        recvs.append(x)
+        by_name[name] = x
+        return name
+
+    def add_enum(variants, rule=None, auk=False):
+        nonlocal k
+        name = "R%d" % k
+        k += 1
+        c = {"rename_all": rule, "default": None, "post": None, "auk": auk, "from_word": None, "from_none": None}
+        erule = rule if rule is not None else "snake_case"
+        for v in variants:
+            v.setdefault("rename", None)
+            v.setdefault("skip", False)
+            v.setdefault("word", False)
+            v.setdefault("fields", [])
+            v["name"] = v["rename"] or apply_to_variant(erule, v["ident"])
+            for f in v["fields"]:
+                f["name"] = f["rename"] or (f["ident"] if v["style"] == "newtype" else apply_to_field(rule, f["ident"]))
+        x = {"name": name, "kind": "enum", "trait": "FromMeta", "cinfo": c, "variants": variants,
+             "has_default": any(v["style"] == "unit" for v in variants), "all_names": [],
+             "depth": 1 + max([ty_depth(f["ty"], by_name) for v in variants for f in v["fields"]] + [0])}
+        recvs.append(x)
+        by_name[name] = x
+        return name
+
+    # skipped fields under every kind of container default (the skipped field takes the container default's value)
+    for cd in ("explicit", "trait", "explicit"):
+        add_struct([F("hidden", L("i64"), skip=True), F("secret", L("String"), skip=True), F("marker", O(L("u8")), skip=True),
+                    F("name", L("String")), F("count", O(L("i64"))), F("items", L("u8"), multiple=True)], cdefault=cd)
+    add_struct([F("hidden", L("u8"), skip=True, default=["trait"]), F("shown", L("char")), F("list", L("i64"), multiple=True),
+                F("word", L("String"), default=["explicit", "d_hello"])], cdefault="explicit", rule="SCREAMING_SNAKE_CASE")
+    # a flatten member with nested receivers, enclosed by receivers whose own names resemble the deep ones (chain of depth 3)
+    deep = add_struct([F("size", L("u8")), F("depth", O(L("u8"))), F("shade", O(L("String")))])
+    mode = add_enum([{"ident": "Wide", "style": "unit"}, {"ident": "Narrow", "style": "unit", "skip": True},
+                     {"ident": "Sized", "style": "newtype", "fields": [F("0", Rv(deep))]},
+                     {"ident": "Custom", "style": "struct", "fields": [F("width", L("u8")), F("heigth", O(L("u8")))]}])
+    flat = add_struct([F("deep", O(Rv(deep))), F("label", O(L("String"))), F("mode", O(Rv(mode))), F("parts", Rv(deep), multiple=True)])
+    parent = add_struct([F("width", O(L("u8"))), F("height", O(L("u8"))), F("sizes", O(L("u8"))), F("labels", O(L("String"))),
+                         F("inner", Rv(flat), flatten=True)])
+    grand = add_struct([F("widths", O(L("u8"))), F("depths", O(L("u8"))), F("shades", O(L("u8"))), F("modes", O(L("bool"))),
+                        F("base", Rv(parent), flatten=True)])
+    add_struct([F("outer_size", O(L("u8"))), F("deeper", O(L("u8"))), F("all", Rv(grand), flatten=True)], auk=False)
+    # the same flatten member under allow_unknown_fields and under a case rule
+    add_struct([F("width", O(L("u8"))), F("shade_of", O(L("u8"))), F("inner", Rv(flat), flatten=True)], auk=True, rule="camelCase")
+    # enums: struct variants with nested receivers, skipped variants of every style, word variant
+    add_enum([{"ident": "Plain", "style": "unit", "word": True}, {"ident": "Hidden", "style": "unit", "skip": True},
+              {"ident": "HiddenValue", "style": "newtype", "skip": True, "fields": [F("0", L("u8"))]},
+              {"ident": "HiddenBody", "style": "struct", "skip": True, "fields": [F("a", L("u8"))]},
+              {"ident": "Body", "style": "struct", "fields": [F("level", L("u8")), F("label", O(L("String"))), F("deep", O(Rv(deep))),
+                                                               F("tags", L("String"), multiple=True)]},
+              {"ident": "Boxed", "style": "newtype", "fields": [F("0", O(L("String")))]}], rule="kebab-case")
+    add_enum([{"ident": "Alpha", "style": "unit", "rename": "beta"}, {"ident": "Beta", "style": "unit", "skip": True},
+              {"ident": "Gamma", "style": "struct", "fields": [F("mode", Rv(mode)), F("n", L("i64"), default=["explicit", "d_seven"])]}], auk=True)
+    # with / map / and_then next to multiple, rename and defaults
+    add_struct([F("len_of", L("i64"), **{"with": "w_len"}), F("loud", L("String"), post=[False, "m_bang"], rename="LOUD"),
+                F("checked", L("String"), post=[True, "a_nonempty"], default=["explicit", "d_hello"]),
+                F("negated", L("bool"), post=[False, "m_not"], multiple=True), F("never", L("i64"), **{"with": "w_fail"}, default=["explicit", "d_seven"])],
+               post=[True, "ca_ok"], cdefault="explicit")
+    return k
+
+
 def gen_corpus(seed, n_structs=110, n_enums=40):
     rng = random.Random(seed)
     recvs, by_name = [], {}
@@ -275,6 +375,7 @@ def gen_corpus(seed, n_structs=110, n_enums=40):
             continue
         recvs.append(x)
         by_name[name] = x
+    directed(recvs, by_name, k)
     return recvs
 
 
@@ -332,22 +433,42 @@ def dump_fields(fields, access):
 def const_value(rng, x, by_name):
     """a specific non-default value of receiver x (as Rust expr and as value JSON), used for default= / from_word / from_none fns"""
     rs, vs = [], []
+
+    def leaf_const(name):
+        if name == "i64":
+            n = rng.randint(1, 90)
+            return str(n), {"t": "int", "v": str(n)}
+        if name == "u8":
+            n = rng.randint(1, 200)
+            return str(n), {"t": "int", "v": str(n)}
+        if name == "String":
+            sv = rng.choice(["const", "preset", "zz"])
+            return '"%s".to_string()' % sv, {"t": "str", "v": sv}
+        if name == "bool":
+            return "true", {"t": "bool", "v": True}
+        if name == "char":
+            ch = rng.choice("qxz")
+            return "'%s'" % ch, {"t": "char", "v": ord(ch)}
+        return None
+
     for f in x["fields"]:
         t = f["ty"]
+        lc = leaf_const(t["name"]) if t["t"] == "leaf" else None
+        oc = leaf_const(t["e"]["name"]) if t["t"] == "opt" and t["e"]["t"] == "leaf" else None
         if f["multiple"]:
-            rs.append("%s: vec![]" % f["ident"])
-            vs.append([f["ident"], {"t": "list", "vs": []}])
-        elif t["t"] == "leaf" and t["name"] == "i64":
-            n = rng.randint(1, 90)
-            rs.append("%s: %d" % (f["ident"], n))
-            vs.append([f["ident"], {"t": "int", "v": str(n)}])
-        elif t["t"] == "leaf" and t["name"] == "String":
-            s = rng.choice(["const", "preset", "zz"])
-            rs.append('%s: "%s".to_string()' % (f["ident"], s))
-            vs.append([f["ident"], {"t": "str", "v": s}])
-        elif t["t"] == "leaf" and t["name"] == "bool":
-            rs.append("%s: true" % f["ident"])
-            vs.append([f["ident"], {"t": "bool", "v": True}])
+            if lc and rng.random() < 0.6:
+                lc2 = leaf_const(t["name"])
+                rs.append("%s: vec![%s, %s]" % (f["ident"], lc[0], lc2[0]))
+                vs.append([f["ident"], {"t": "list", "vs": [lc[1], lc2[1]]}])
+            else:
+                rs.append("%s: vec![]" % f["ident"])
+                vs.append([f["ident"], {"t": "list", "vs": []}])
+        elif lc:
+            rs.append("%s: %s" % (f["ident"], lc[0]))
+            vs.append([f["ident"], lc[1]])
+        elif oc:
+            rs.append("%s: Some(%s)" % (f["ident"], oc[0]))
+            vs.append([f["ident"], {"t": "some", "v": oc[1]}])
         else:
             rs.append("%s: Default::default()" % f["ident"])
             vs.append([f["ident"], None])      # = default_of the field type (filled in by the model)
